@@ -10,6 +10,7 @@ import (
 	"errors"
 	"fmt"
 	"sort"
+	"strings"
 	"sync"
 	"time"
 
@@ -42,7 +43,7 @@ type c07Input struct {
 	KSel     int        `json:"ksel"`
 	Undo     bool       `json:"undo"`
 	Forked   bool       `json:"forked"`
-	Straddle bool       `json:"straddle"` // prefer a cursor whose LIB is below the hub window and whose block is inside
+	Straddle bool       `json:"straddle"`            // prefer a cursor whose LIB is below the hub window and whose block is inside
 	CurAhead int        `json:"cur_ahead,omitempty"` // the cursor may come from a server that had seen this many more arrivals than the hub
 	NonFinal bool       `json:"non_final,omitempty"` // W3: with the final-blocks-only filter, resume from a New/Undo cursor (must be refused)
 	Stop     uint64     `json:"stop"`
@@ -675,6 +676,28 @@ func c07Gen(prop string) func(r *Rng, i int, tier string) any {
 			// cursors for this filter, so the refusal clause of c13_prop was never evaluated under its guard
 			in.NonFinal = true
 			in.Shape += "/non-final-cursor"
+		}
+		// seeded mutant C13-m8: the start-after-stop refusal is about the RESOLVED start (a negative start resolved against
+		// the hub's head, a start below the first streamable block clamped to it), so the raw start is at or below the stop
+		// block while the resolved one is above it. Drawn last: the other cases are those of the earlier rounds.
+		if prop == "C13" && in.Mode == "num" && !filesOnly && !strings.Contains(in.Shape, "lagging-hub") && r.Chance(12) {
+			if in.First == in.Root.Num && in.First >= 2 && r.Chance(50) {
+				in.Start = int64(r.Intn(int(in.First)))
+				in.Stop = uint64(in.Start) + uint64(r.Intn(int(in.First)-int(in.Start)))
+				if in.Stop == 0 {
+					in.Stop = 1
+				}
+				in.Shape += "/resolved-start-after-stop"
+			} else if span >= 3 {
+				d := r.Intn(span - 1)
+				resolved := hubHeadNum - uint64(d)
+				in.Start = -int64(d)
+				in.Stop = resolved - uint64(1+r.Intn(2))
+				if in.Stop == 0 {
+					in.Stop = 1
+				}
+				in.Shape += "/resolved-start-after-stop"
+			}
 		}
 		return in
 	}
